@@ -271,12 +271,14 @@ def usm_decrypt(cipher, key16, salt, boots4, time4, data):
     return None
 
 
-def usm_encrypt(cipher, key16, salt, boots4, time4, plain):
+def usm_encrypt(cipher, key16, salt, boots4, time4, plain, pad_style="zero"):
+    """pad_style (DES only; RFC 3414 8.1.1.2: "the actual pad value is irrelevant"): zero | pkcs (pad length) | ff | mixed"""
     key16, salt, plain = bytes(key16), bytes(salt), bytes(plain)
     if cipher == "des":
         pad = (-len(plain)) % 8
+        fill = {"zero": b"\0" * pad, "pkcs": bytes([pad]) * pad, "ff": b"\xff" * pad, "mixed": bytes((0x5A + 7 * i) % 256 for i in range(pad))}[pad_style]
         iv = bytes(a ^ b for a, b in zip(key16[8:16], salt))
-        return des_cbc_encrypt(key16[:8], iv, plain + b"\0" * pad)
+        return des_cbc_encrypt(key16[:8], iv, plain + fill)
     iv = bytes(boots4) + bytes(time4) + salt
     return aes_cfb_encrypt(key16[:16], iv, plain)
 
